@@ -494,7 +494,11 @@ func readString(dst, b []byte) ([]byte, []byte, error) {
 	var n uint64
 
 	if len(b) == 0 {
-		return b, dst, errors.New("no bytes left reading a string. Malformed data?")
+		// Nothing of the string has arrived yet, not even its length: the same
+		// situation as a length or a body that is cut short, and reported the
+		// same way so that a block cut right in front of a string is carried
+		// over to the next frame like any other cut.
+		return b, dst, ErrUnexpectedSize
 	}
 
 	mustDecode := b[0]&128 == 128 // huffman encoded
